@@ -1063,3 +1063,61 @@ RECIPES += [
         uset_set = index.get_level_values("id") * 10 + index.get_level_values("dof")
 ''', "mkdofpv: slice(None) for every set but the p-set (the table is never restricted)"),
 ]
+
+# ---------------------------------------------------------------------------------------------- C18-R6: flippv / index2bool on a finite world
+_FLIP = '''    tf = np.ones(n, dtype=bool)
+    tf[pv] = False
+    return tf.nonzero()[0]
+'''
+_I2B = '''    tf = np.zeros(n, dtype=bool)
+    tf[pv] = True
+    return tf
+'''
+
+
+def _r6(kind, old, new, desc):
+    return ("C18", kind, ["C18-R6"] if kind == "break" else [], LOC, old, new, desc)
+
+
+RECIPES += [
+    # ---- correct variants of the complement
+    _r6("neutral", _FLIP, "    return np.setdiff1d(np.arange(n), np.arange(n)[pv])\n", "flippv: set difference with the positions pv addresses (arange(n)[pv])"),
+    _r6("neutral", _FLIP, "    return np.delete(np.arange(n), pv)\n", "flippv: np.delete of the addressed positions (a mask of the wrong length is a ValueError instead of an IndexError)"),
+    _r6("neutral", _FLIP, "    return np.flatnonzero(~index2bool(pv, n))\n", "flippv: through index2bool"),
+    _r6("neutral", _FLIP, "    idx = np.arange(n)\n    return idx[~np.isin(idx, idx[pv])]\n", "flippv: isin on the addressed positions"),
+    _r6("neutral", _FLIP, "    idx = np.arange(n)\n    return idx[np.isin(idx, idx[pv], invert=True)]\n", "flippv: isin(invert=True) on the addressed positions"),
+    _r6("neutral", _FLIP, "    mask = np.zeros((n,), dtype=np.bool_)\n    mask[pv] = 1\n    return np.where(mask == False)[0]\n", "flippv: selected mask, where(mask == False)"),
+    _r6("neutral", _FLIP, "    hits = np.zeros(n, dtype=int)\n    hits[pv] += 1\n    (notpv,) = np.nonzero(hits == 0)\n    return notpv\n", "flippv: hit counter"),
+    _r6("neutral", _FLIP, "    tf = np.empty(n, dtype=bool)\n    tf.fill(True)\n    tf[pv] = False\n    return np.array([i for i in range(n) if tf[i]], dtype=np.intp)\n",
+        "flippv: np.empty + fill, positions by a comprehension with an integer dtype"),
+    _r6("neutral", _FLIP, "    pv = np.asarray(pv)\n    if pv.dtype == bool and pv.size == n:\n        return np.flatnonzero(~pv)\n    tf = np.ones(n, dtype=bool)\n    tf[pv] = False\n    return tf.nonzero()[0]\n",
+        "flippv: a mask of the right length is complemented directly"),
+    _r6("neutral", _FLIP, "    pv = np.atleast_1d(pv)\n    if pv.dtype.kind == 'b':\n        if pv.size != n:\n            raise IndexError('mask length')\n        pv = pv.nonzero()[0]\n"
+        "    if pv.size and (pv.min() < -n or pv.max() >= n):\n        raise IndexError('index out of range')\n    return np.setdiff1d(np.arange(n), np.where(pv < 0, pv + n, pv))\n",
+        "flippv: negative indices wrapped by hand, mask converted to positions, then a set difference on values"),
+    _r6("neutral", _FLIP, "    gone = {range(n)[k] for k in np.arange(n)[pv]}\n    return np.array(sorted(set(range(n)) - gone), dtype=int)\n", "flippv: Python sets of the addressed positions"),
+    _r6("neutral", _FLIP, "    tf = np.ones(n, dtype=bool)\n    for k in np.arange(n)[pv]:\n        tf[k] = False\n    return tf.nonzero()[0]\n", "flippv: loop over the addressed positions"),
+    # ---- the complement of the values of pv instead of the positions it addresses (siblings of seed K)
+    _r6("break", _FLIP, "    return np.setdiff1d(np.arange(n), pv)\n", "flippv: set difference with the values of pv (seed K)"),
+    _r6("break", _FLIP, "    idx = np.arange(n)\n    return idx[~np.isin(idx, pv)]\n", "flippv: isin on the values of pv"),
+    _r6("break", _FLIP, "    idx = np.arange(n)\n    return idx[np.isin(idx, pv, invert=True)]\n", "flippv: isin(invert=True) on the values of pv"),
+    _r6("break", _FLIP, "    gone = set(pv.tolist())\n    return np.array([i for i in range(n) if i not in gone], dtype=int)\n", "flippv: Python set of the values of pv"),
+    _r6("break", _FLIP, "    return np.setdiff1d(np.arange(n), np.abs(pv))\n", "flippv: negative indices mirrored instead of counted from the end"),
+    _r6("break", _FLIP, "    return np.setdiff1d(np.arange(n), np.asarray(pv) % n)\n", "flippv: indices wrapped, but a boolean mask is read as the integers 0 / 1"),
+    _r6("break", _FLIP, "    tf = np.ones(n, dtype=bool)\n    np.put(tf, pv, False)\n    return tf.nonzero()[0]\n", "flippv: np.put reads a boolean mask as the integers 0 / 1"),
+    _r6("break", _FLIP, "    pv = np.asarray(pv)\n    if pv.dtype != bool and pv.size and pv.min() < 0:\n        raise ValueError('negative index')\n    tf = np.ones(n, dtype=bool)\n    tf[pv] = False\n    return tf.nonzero()[0]\n",
+        "flippv: from-the-end indices refused"),
+    _r6("break", _FLIP, "    tf = np.ones(n, dtype=bool)\n    tf[pv] = False\n    return np.array([i for i, t in enumerate(tf) if t])\n", "flippv: an empty complement comes back as a float array (not an index vector)"),
+    _r6("break", _FLIP, "    tf = np.ones(n, dtype=bool)\n    tf[pv] = False\n    return tf.nonzero()[0][::-1]\n", "flippv: complement in descending order"),
+    _r6("break", _FLIP, "    tf = np.zeros(n, dtype=bool)\n    tf[pv] = False\n    return tf.nonzero()[0]\n", "flippv: scratch vector starts all False"),
+    _r6("break", _FLIP, "    tf = np.ones(n, dtype=bool)\n    tf[pv] = False\n    return tf\n", "flippv: the mask returned instead of the positions"),
+    # ---- index2bool
+    _r6("neutral", _I2B, "    return np.isin(np.arange(n), np.arange(n)[pv])\n", "index2bool: membership in the addressed positions"),
+    _r6("neutral", _I2B, "    tf = np.full(n, False)\n    tf[np.arange(n)[pv]] = True\n    return tf\n", "index2bool: store through the addressed positions"),
+    _r6("neutral", _I2B, "    return np.bincount(np.arange(n)[pv], minlength=n) > 0\n", "index2bool: bincount of the addressed positions"),
+    _r6("neutral", _I2B, "    tf = np.ones(n, dtype=bool)\n    tf[pv] = False\n    return ~tf\n", "index2bool: complement of the complement"),
+    _r6("break", _I2B, "    return np.isin(np.arange(n), pv)\n", "index2bool: membership in the values of pv"),
+    _r6("break", _I2B, "    tf = np.zeros(n, dtype=int)\n    tf[pv] = 1\n    return tf\n", "index2bool: an integer 0 / 1 vector (fancy index, not a mask)"),
+    _r6("break", _I2B, "    tf = np.zeros(n + 1, dtype=bool)\n    tf[pv] = True\n    return tf[:n]\n", "index2bool: scratch vector one longer (from-the-end indices land one off)"),
+    _r6("break", _I2B, "    tf = np.zeros(n, dtype=bool)\n    tf[np.abs(pv)] = True\n    return tf\n", "index2bool: negative indices mirrored"),
+]
